@@ -133,9 +133,10 @@ def gen_plan(rng, tier):
             d = _pair(rng, lo, hi, style)
             if rng.random() < 0.03:
                 d = [d[0], d[0]]  # degenerate: switches I1/I5 off for that scale only
-            ops.append(["domain", i, d])
+            ops.append(["domain", i, d] + rng.choice([[], [], [], ["tuple"], ["int"]]))
         elif r < copy_p + nice_p + 0.40:
-            ops.append(["range", i, _pair(rng, lo, hi, rng.choice([style, "int"]))])
+            ops.append(["range", i, _pair(rng, lo, hi, rng.choice([style, "int"]))]
+                       + rng.choice([[], [], [], ["tuple"], ["int"]]))
         elif r < copy_p + nice_p + 0.40 + clamp_p:
             ops.append(["clamp", i, rng.random() < 0.7])
         elif r < copy_p + nice_p + 0.40 + clamp_p + fault_p:
@@ -387,11 +388,21 @@ def _run(plan):
                 generation.append(0)
                 next_family += 1
             elif kind == "domain":
-                target.domain(list(op[2]))
+                arg = list(op[2])
+                if len(op) > 3 and op[3] == "tuple":
+                    arg = tuple(arg)
+                elif len(op) > 3 and op[3] == "int":
+                    arg = [int(v) if float(v).is_integer() else v for v in arg]
+                target.domain(arg)
                 if id(target) in exempt:
                     exempt[id(target)].discard("domain")
             elif kind == "range":
-                target.range(list(op[2]))
+                arg = list(op[2])
+                if len(op) > 3 and op[3] == "tuple":
+                    arg = tuple(arg)
+                elif len(op) > 3 and op[3] == "int":
+                    arg = [int(v) if float(v).is_integer() else v for v in arg]
+                target.range(arg)
                 if id(target) in exempt:
                     exempt[id(target)].discard("range")
             elif kind == "clamp":
